@@ -199,6 +199,46 @@ class TotalWorld(OracleWorld):
             return w
         return None
 
+    def _widen_by_shape(self, st, vals, hint):
+        """Widening when the declared type says nothing (a generic parameter of an interpreted std body,
+        e.g. try_fold's accumulator `B`): the values' own shape decides."""
+        if all(isinstance(v, Tup) for v in vals) and len({len(v.fields) for v in vals}) == 1:
+            out = []
+            for i in range(len(vals[0].fields)):
+                c = self._widen_by_shape(st, [v.fields[i] for v in vals], (hint, i))
+                if c is None:
+                    return None
+                out.append(c)
+            return Tup(tuple(out))
+        if all(isinstance(v, (I, Sym)) for v in vals):
+            tys = {v.ty for v in vals}
+            if len(tys) == 1:
+                ty = tys.pop()
+                if len(set(vals)) == 1:
+                    return vals[0]
+                if ty in ip.INT_BITS and ty not in ("bool", "char"):
+                    return self._widen_scalar(st, vals, ty, ("w", hint, self.n(st)))[0]
+                return Sym(("w", hint, self.n(st)), ty)
+        if all(isinstance(v, (Adt, Sym)) for v in vals):
+            tys = {(v.ty.split("<")[0]) for v in vals}
+            if len(tys) == 1:
+                ty = tys.pop()
+                if len(set(vals)) == 1:
+                    return vals[0]
+                a = self.prog.adts.get(ty)
+                if a is not None and a["kind"] == "Enum" and all(not x["fields"] for x in a["variants"]):
+                    return Sym(("w", hint, self.n(st)), ty)
+                adts = [v for v in vals if isinstance(v, Adt)]
+                if len(adts) == len(vals) and len({v.variant for v in adts}) == 1:
+                    out = []
+                    for i in range(len(adts[0].fields)):
+                        c = self._widen_by_shape(st, [v.fields[i] for v in adts], (hint, i))
+                        if c is None:
+                            return None
+                        out.append(c)
+                    return Adt(adts[0].ty, adts[0].variant, tuple(out))
+        return None
+
     def fresh_field(self, st, sym, variant, i, ty):
         tpl = st.ext.get("tpl:%r" % (sym.name,))
         if tpl is not None and variant == 1 and i == 0:
@@ -234,7 +274,10 @@ class TotalWorld(OracleWorld):
         ev = {"fn": fr.body.id, "head": fr.bb, "local": fr.body.local_name(local), "ty": lty}
         vals = [v for v in (old, new) if v is not m._MISSING]
         if not (lty in ip.INT_BITS) and len(vals) == 2:
-            sw = self._widen_struct(st, vals, lty, (fr.uid, local, n))
+            if re.match(r"^[A-Z][A-Za-z0-9]*$", lty) or lty == "?":
+                sw = self._widen_by_shape(st, vals, (fr.uid, local, n))
+            else:
+                sw = self._widen_struct(st, vals, lty, (fr.uid, local, n))
             if sw is not None:
                 st.ext["inv:%r" % ((fr.uid, local),)] = ("struct",)
                 ev["invariants"] = ["component-wise"]
